@@ -522,7 +522,7 @@ theorem anyFirings_eq (conns : List Nat) (hist : List Ev) :
   induction hist generalizing conns with
   | nil => rfl
   | cons ev rest ih =>
-    cases ev <;> simp [anyFirings, anyStep, Ev.isCall, ih] <;> omega
+    cases ev <;> simp [anyFirings, anyStep, Ev.isCall, ih, List.filter_cons] <;> omega
 
 theorem callsFrom_nodup (conns : List Nat) (e : Nat) (h : conns.Nodup) :
     callsFrom conns e = if conns.contains e then 1 else 0 := by
@@ -536,7 +536,7 @@ theorem callsFrom_nodup (conns : List Nat) (e : Nat) (h : conns.Nodup) :
       have : (rest.filter (· == c)) = [] := by
         simp only [List.filter_eq_nil_iff, beq_iff_eq]
         intro x hx hxc; subst hxc; exact hn.1 hx
-      simp [List.filter_cons, this]
+      simp [this]
     · have h1 : (c == e) = false := by simpa using hce
       have h2 : (e == c) = false := by simpa using (fun h => hce h.symm)
       simp only [List.filter_cons, h1, Bool.false_eq_true, ↓reduceIte, ih hn.2, List.contains_cons, h2,
